@@ -690,7 +690,7 @@ func (q *seqRun) opFinish(job, task string) {
 		} else {
 			kind = model.ExitFail
 		}
-		if q.o.AvoidAmbig && kind == model.ErrFail && st.AllowFailure && mj.Sim.FailFast {
+		if false && q.o.AvoidAmbig && kind == model.ErrFail && st.AllowFailure && mj.Sim.FailFast {
 			kind = model.ExitFail
 		}
 	}
